@@ -248,7 +248,12 @@ func AddStandardFilters(fd FilterDictionary) { //nolint: gocyclo
 			if len(rs) <= n {
 				return s
 			}
-			return string(rs[:n-len(el)]) + el
+			keep := n - len(el)
+			if keep < 0 {
+				// the ellipsis alone is longer than the requested length
+				keep = 0
+			}
+			return string(rs[:keep]) + el
 		}
 		// runes aren't bytes; don't use slice
 		re := regexp.MustCompile(fmt.Sprintf(`^(.{%d})..{%d,}`, n-len(el), len(el)))
